@@ -147,6 +147,25 @@ example :
       .struct [.sc .i64, .sc .i64]]⟩
     fitsInRegs sig = false ∧ noSplit sig = true ∧ implPlace sig = place sig := by decide
 
+/-! ## arm64 (model and specification only: nothing executes on the host) -/
+
+/-- **arm64 classification soundness**: for every type of the universe `TypeInfoArm64.GetTypeInfo` chooses what
+    AAPCS64 prescribes — a homogeneous floating-point aggregate of 1–4 members stays an aggregate of floats (SIMD
+    registers), two pointer/`i64` leaves stay two general registers, any other composite of ≤ 16 bytes becomes
+    `i64` / `[2 x i64]` (results ≤ 8 bytes: the integer of the object's width), and anything larger is passed
+    through a pointer (results: `sret`, i.e. `x8`). -/
+theorem arm64_classify_sound (t : CType) (h : t.wf = true) (isRet : Bool) :
+    AAPCS64.Sound (classifyArm64 t isRet) t.view := by
+  cases t with
+  | sc s => exact arm64_sound_scalar s isRet
+  | struct fs => exact arm64_sound_good _ (goodView_of_wf _ h) isRet
+  | array n e => exact arm64_sound_good _ (goodView_of_wf _ h) isRet
+
+example : classifyArm64 (.struct [.sc .f32, .array 2 (.sc .f32)]) false = .direct ∧
+    classifyArm64 (.struct [.sc .f64, .sc .i8]) false = .coerceI64x2 ∧
+    classifyArm64 (.struct [.sc .i8, .struct [.sc .i8, .sc .i32]]) true = .coerceI64x2 ∧
+    classifyArm64 (.struct [.sc .i16, .sc .i8]) true = .coerceInt 4 := by decide
+
 /-! ## C strings -/
 
 /-- **C-string round trip.** Copying a Go string into any (dirty) memory region that has room for it plus
